@@ -25,6 +25,12 @@ def _seed_edges(shape, p):
     return [(i, i + 1) for i in range(p - 1)] + [(p - 1, p // 2)]
   if shape == "none":
     return []
+  if shape == "rev":   # chain pointing from high ids to low ids
+    return [(i + 1, i) for i in range(p - 1)]
+  if shape == "hop":   # every node reaches the node one 64-bit word further on
+    return [(i, i + 64) for i in range(p - 64)] + [(i, i + 1) for i in range(0, p - 1, 64)]
+  if shape == "ring":  # one big cycle
+    return [(i, i + 1) for i in range(p - 1)] + [(p - 1, 0)]
   raise ValueError(shape)
 
 
@@ -203,7 +209,23 @@ def run(rep, tier, seed):
   st, tr, lv = explore.bfs(m, inits, wdepth, rep, seed=seed, label="seed")
   states += st; trans += tr; levels_all["seeds"] = lv
   rep.outcome("states_from_seeds", st)
+  # Part 3: seeds spanning 3-5 bit words; the window holds one old node on each side of every word
+  # boundary, so every order of {edge into / out of / across a later word, new node} is explored
+  if tier == "quick":
+    sizes3, shapes3, wdepth3, maxnew3 = (128, 129, 192, 193, 257), ("chain", "rev", "hop", "none"), 2, 1
+  else:
+    sizes3, shapes3, wdepth3, maxnew3 = (128, 129, 191, 192, 193, 255, 256, 257, 320, 321), \
+        ("chain", "rev", "hop", "ring", "two", "none"), 3, 2
+  wold3 = lambda p: sorted({0, 63, 64, 127, 128, (p - 1) // 64 * 64 - 1, (p - 1) // 64 * 64, p - 1} & set(range(p)))
+  m3 = Reach(max_nodes=None, window_old=wold3, maxnew=maxnew3, fullcheck=True)
+  inits3 = [(("seed", shape, p),) for p in sizes3 for shape in shapes3]
+  st, tr, lv = explore.bfs(m3, inits3, wdepth3, rep, seed=seed, label="seedwide")
+  states += st; trans += tr; levels_all["wide_seeds"] = lv
+  rep.outcome("states_from_wide_seeds", st)
   rep.cov.update({
+      "wide_seeds": {"sizes": list(sizes3), "shapes": list(shapes3), "window_depth": wdepth3,
+                     "window_new_nodes": maxnew3,
+                     "window_old_nodes": "0, 63, 64, 127, 128, first and last-but-one word boundary, p-1"},
       "states": states, "transitions": trans,
       "traces_validated_against_impl": trans,
       "levels": levels_all,
@@ -230,7 +252,10 @@ def run(rep, tier, seed):
 def replay(case):
   boot.load()
   hist = tuple(tuple(op) for op in case["history"])
-  if case.get("label", "").startswith("seed"):
+  if case.get("label", "") == "seedwide":
+    m = Reach(None, window_old=lambda p: sorted({0, 63, 64, 127, 128, (p - 1) // 64 * 64 - 1, (p - 1) // 64 * 64, p - 1}
+                                                & set(range(p))), maxnew=9)
+  elif case.get("label", "").startswith("seed"):
     p = hist[0][2]
     m = Reach(None, window_old=lambda p: [0, p // 2, p - 1], maxnew=9)
   else:
